@@ -263,3 +263,183 @@ Proof.
       apply andb_true_iff in Hsl. destruct Hsl as [Hsl _]. apply andb_true_iff in Hsl. destruct Hsl as [_ Hk].
       apply Z.eqb_eq in Hk. destruct (Hwf sl Hin) as (kr & Hkr'). rewrite Hk in Hkr'. congruence.
 Qed.
+
+(* ---- round 4: the peerstores' signed-record path (kind 20) --------------------------------- *)
+(* under ANY ideal scheme and for ANY state of the book - whatever bytes sit in the datastore
+   or the cache - GetPeerRecord hands out only content whose signature was issued for exactly
+   (signer, PeerRecordEnvelopeDomain, payload type, payload) *)
+Theorem ps_get_only_sealed_l :
+  forall (K : Type) (key_dec : N -> bytes -> option K) (verify : K -> bytes -> bytes -> bool)
+         (origin : bytes -> option (K * bytes)),
+  (forall k m s, verify k m s = true <-> origin s = Some (k, m)) ->
+  forall prdom prcodec p b k pt pl b',
+    ps_get K key_dec verify prdom prcodec p b = (Some (k, pt, pl), b') ->
+    exists sq raw e, fst (ps_load p b) = Some (sq, raw) /\
+      unmarshal_envelope K key_dec raw = Some (k, e) /\ pt = e_pt e /\ pl = e_pl e /\
+      origin (e_sg e) = Some (k, make_unsigned prdom pt pl).
+Proof.
+  intros K key_dec verify origin Hid prdom prcodec p b k pt pl b' H.
+  unfold ps_get in H. destruct (ps_load p b) as [cur b1] eqn:L. cbn [fst].
+  destruct cur as [[sq raw]|]; [|discriminate].
+  destruct (consume K key_dec verify raw prdom) as [k0 pt0 pl0| |] eqn:C; try discriminate.
+  destruct (rec_dec prcodec pt0 pl0); [|discriminate].
+  injection H as Hk Hpt Hpl _. subst k0 pt0 pl0.
+  apply (consume_accept_iff K key_dec verify origin Hid) in C. destruct C as (e & U & Ht & Hp & O).
+  exists sq, raw, e. repeat split; assumption.
+Qed.
+
+(* an entry whose bytes were edited (payload, type, key or domain differ from what the carried
+   signature was issued for) is not handed out *)
+Corollary ps_get_edited_is_refused_l :
+  forall (K : Type) (key_dec : N -> bytes -> option K) (verify : K -> bytes -> bytes -> bool)
+         (origin : bytes -> option (K * bytes)),
+  (forall k m s, verify k m s = true <-> origin s = Some (k, m)) ->
+  forall prdom prcodec p b sq raw k e k0 d0 t0 p0,
+    fst (ps_load p b) = Some (sq, raw) ->
+    unmarshal_envelope K key_dec raw = Some (k, e) -> sealed_with K origin (e_sg e) k0 d0 t0 p0 ->
+    (k <> k0 \/ prdom <> d0 \/ e_pt e <> t0 \/ e_pl e <> p0) ->
+    fst (ps_get K key_dec verify prdom prcodec p b) = None.
+Proof.
+  intros K key_dec verify origin Hid prdom prcodec p b sq raw k e k0 d0 t0 p0 L U S Hne.
+  unfold ps_get. destruct (ps_load p b) as [cur b1]. cbn [fst] in *. subst cur.
+  rewrite (envelope_reject_foreign K key_dec verify origin Hid raw prdom k e k0 d0 t0 p0 U S Hne).
+  reflexivity.
+Qed.
+
+(* the peerstore stores a record only under the ID of the key that signed it *)
+Theorem ps_consume_stored_id_is_signers_l :
+  forall (K : Type) (key_dec : N -> bytes -> option K) (verify : K -> bytes -> bytes -> bool)
+         (id_of : K -> bytes) (key_proto : K -> N * bytes) prdom prcodec env b r rid b',
+    ps_consume K key_dec verify id_of key_proto prdom prcodec env b = ((r, 1%N, rid), b') ->
+    exists k pt pl, r = CAccept k pt pl /\ consume K key_dec verify env prdom = CAccept k pt pl /\
+                    rid = id_of k /\ record_peer_id pl = Some rid.
+Proof.
+  intros K key_dec verify id_of key_proto prdom prcodec env b r rid b' H.
+  unfold ps_consume in H. unfold consume.
+  destruct (unmarshal_envelope K key_dec env) as [[k e]|]; [|discriminate].
+  destruct (verify k (make_unsigned prdom (e_pt e) (e_pl e)) (e_sg e)); [|discriminate].
+  destruct (rec_dec prcodec (e_pt e) (e_pl e)) as [[rid0 sq]|] eqn:R; [|discriminate].
+  destruct (bytes_eqb rid0 (id_of k)) eqn:E; [|discriminate].
+  destruct (ps_load rid0 b) as [cur b1].
+  destruct (sq <? ps_latest cur)%N; [discriminate|].
+  destruct (key_proto k) as [kt kd]. injection H as Hr Hrid _. subst r rid.
+  exists k, (e_pt e), (e_pl e). apply bytes_eqb_eq in E.
+  unfold rec_dec in R. destruct (bytes_eqb (e_pt e) prcodec); [|discriminate].
+  destruct (record_peer_id (e_pl e)) as [x|] eqn:RP; [|discriminate]. injection R as Hx _. subst x.
+  repeat split. exact E.
+Qed.
+
+(* the history as the MODEL produces it *)
+Inductive stim20 :=
+| St20Consume (env : bytes) | St20Get (p : bytes) | St20Edit (p raw : bytes) | St20Reopen.
+
+Section ModelTrace20.
+  Variable keys : list keyrow.
+  Variable seals : list sealrow.
+  Variable kd : N -> bytes -> option Z.
+  Variables prdom prcodec : bytes.
+
+  Definition model_op20 (s : stim20) (b : book) : op20 * book :=
+    match s with
+    | St20Consume env =>
+        let '((r, pr, rid), b') :=
+          ps_consume Z kd (table_verify seals) (key_goid keys) (key_proto_of keys) prdom prcodec env b in
+        (Op20Consume env
+           (match r with CAccept _ _ _ => 1 | CBadEnvelope => 0 | CBadSignature => 2 end)
+           (match r with CAccept k _ _ => key_canon keys k | _ => [] end)
+           (match r with CAccept _ pt _ => pt | _ => [] end)
+           (match r with CAccept _ _ pl => pl | _ => [] end)
+           (match r with CAccept k _ _ => key_goid keys k | _ => [] end)
+           (Z.of_N pr) rid, b')
+    | St20Get p =>
+        let '(g, b') := ps_get Z kd (table_verify seals) prdom prcodec p b in
+        (match g with
+         | Some (k, pt, pl) => Op20Get p 1 (key_canon keys k) pt pl (key_goid keys k) 1
+         | None => Op20Get p 0 [] [] [] [] 0
+         end, b')
+    | St20Edit p raw => (Op20Edit p raw, ps_edit p raw b)
+    | St20Reopen => (Op20Reopen, ps_reopen b)
+    end.
+
+  Fixpoint model_ops20 (ss : list stim20) (b : book) : list op20 :=
+    match ss with
+    | [] => []
+    | s :: r => let '(o, b') := model_op20 s b in o :: model_ops20 r b'
+    end.
+
+  Hypothesis Hwf : seals_wf keys seals.
+
+  (* whatever the ideal table scheme accepts is the content of a seal event, signed by a key of
+     the table *)
+  Lemma consume_table_sealed : forall b dom k pt pl,
+    consume Z kd (table_verify seals) b dom = CAccept k pt pl ->
+    (exists kr, key_at keys k = Some kr) /\
+    sealed_content keys seals (key_canon keys k) (key_goid keys k) dom pt pl = true.
+  Proof.
+    intros b dom k pt pl C. unfold consume in C.
+    destruct (unmarshal_envelope Z kd b) as [[k' e]|] eqn:U; [|discriminate].
+    destruct (table_verify seals k' (make_unsigned dom (e_pt e) (e_pl e)) (e_sg e)) eqn:V; [|discriminate].
+    injection C as -> <- <-.
+    unfold table_verify in V. apply existsb_exists in V. destruct V as (sl & Hin & Hsl).
+    apply andb_true_iff in Hsl. destruct Hsl as [Hsl Hm]. apply andb_true_iff in Hsl. destruct Hsl as [_ Hk].
+    apply Z.eqb_eq in Hk. apply bytes_eqb_eq in Hm.
+    apply make_unsigned_injective_l in Hm. destruct Hm as (Hd & Ht & Hp).
+    destruct (Hwf sl Hin) as (kr & Hkr). rewrite Hk in Hkr.
+    split; [exists kr; exact Hkr|].
+    unfold sealed_content, key_canon, key_goid. apply existsb_exists. exists sl. split; [exact Hin|].
+    rewrite Hk. rewrite Hkr. unfold beq. rewrite Hd, Ht, Hp. rewrite !bytes_eqb_refl. reflexivity.
+  Qed.
+
+  Lemma monitor_model_op20 : forall s b, monitor_op20 keys seals prdom (fst (model_op20 s b)) = [].
+  Proof.
+    intros [env|p|p raw|] b; cbn [model_op20]; try reflexivity.
+    - destruct (ps_consume Z kd (table_verify seals) (key_goid keys) (key_proto_of keys) prdom prcodec env b)
+        as [[[r pr] rid] b'] eqn:PC. cbn [fst monitor_op20].
+      assert (E1 : negb ((match r with CAccept _ _ _ => 1 | CBadEnvelope => 0 | CBadSignature => 2 end) =? 1)
+                   || sealed_content keys seals
+                        (match r with CAccept k _ _ => key_canon keys k | _ => [] end)
+                        (match r with CAccept k _ _ => key_goid keys k | _ => [] end) prdom
+                        (match r with CAccept _ pt _ => pt | _ => [] end)
+                        (match r with CAccept _ _ pl => pl | _ => [] end) = true).
+      { destruct r as [k pt pl| |]; try reflexivity. cbn [Z.eqb Pos.eqb negb orb].
+        assert (C : consume Z kd (table_verify seals) env prdom = CAccept k pt pl).
+        { unfold ps_consume in PC. unfold consume.
+          destruct (unmarshal_envelope Z kd env) as [[k0 e]|]; [|inversion PC].
+          destruct (table_verify seals k0 (make_unsigned prdom (e_pt e) (e_pl e)) (e_sg e)); [|inversion PC].
+          destruct (rec_dec prcodec (e_pt e) (e_pl e)) as [[rid0 sq]|].
+          - destruct (bytes_eqb rid0 (key_goid keys k0)).
+            + destruct (ps_load rid0 b) as [cur b1]. destruct (sq <? ps_latest cur)%N.
+              * inversion PC; reflexivity.
+              * destruct (key_proto_of keys k0). inversion PC; reflexivity.
+            + inversion PC; reflexivity.
+          - inversion PC; reflexivity. }
+        apply consume_table_sealed in C. exact (proj2 C). }
+      assert (E2 : negb (Z.of_N pr =? 1)
+                   || (((match r with CAccept _ _ _ => 1 | CBadEnvelope => 0 | CBadSignature => 2 end) =? 1)
+                       && signer_has_id keys (match r with CAccept k _ _ => key_canon keys k | _ => [] end) rid) = true).
+      { destruct (Z.of_N pr =? 1) eqn:Epr; [|reflexivity]. apply Z.eqb_eq in Epr.
+        assert (pr = 1%N) by (destruct pr as [|[?|?|]]; cbn in Epr; try discriminate; reflexivity). subst pr.
+        apply ps_consume_stored_id_is_signers_l in PC. destruct PC as (k & pt & pl & -> & C & Hrid & _).
+        apply consume_table_sealed in C. destruct C as [(kr & Hkr) _].
+        cbn [negb orb Z.eqb Pos.eqb andb]. unfold signer_has_id, key_canon. rewrite Hkr.
+        apply existsb_exists. exists kr. split; [eapply key_at_in; exact Hkr|].
+        subst rid. unfold key_goid. rewrite Hkr. unfold beq. rewrite !bytes_eqb_refl. reflexivity. }
+      cbn [first_fail]. rewrite E1. cbn [first_fail]. rewrite E2. reflexivity.
+    - destruct (ps_get Z kd (table_verify seals) prdom prcodec p b) as [g b'] eqn:G. cbn [fst].
+      destruct g as [[[k pt] pl]|]; [|reflexivity].
+      cbn [monitor_op20 Z.eqb Pos.eqb negb orb first_fail].
+      assert (C : exists raw, consume Z kd (table_verify seals) raw prdom = CAccept k pt pl).
+      { unfold ps_get in G. destruct (ps_load p b) as [cur b1]. destruct cur as [[sq raw]|]; [|inversion G].
+        exists raw. destruct (consume Z kd (table_verify seals) raw prdom) as [k0 pt0 pl0| |]; try (inversion G; fail).
+        destruct (rec_dec prcodec pt0 pl0); inversion G. reflexivity. }
+      destruct C as (raw & C). apply consume_table_sealed in C. rewrite (proj2 C). reflexivity.
+  Qed.
+
+  Theorem monitor_accepts_peerstore_model_l : forall ss b,
+    monitor_ops20 keys seals prdom (model_ops20 ss b) = [].
+  Proof.
+    induction ss as [|s r IH]; intros b; [reflexivity|].
+    cbn [model_ops20]. pose proof (monitor_model_op20 s b) as M.
+    destruct (model_op20 s b) as [o b']. cbn [fst] in M. cbn [monitor_ops20]. rewrite M. apply IH.
+  Qed.
+End ModelTrace20.
